@@ -704,7 +704,9 @@ fn gen_source_bytes(g: &mut Gen, max_len: usize) -> Vec<u8> {
 /// libFuzzer entry: the input bytes are a choice tape (two bytes per word).
 pub fn fuzz_entry(data: &[u8]) -> Result<(), String> {
     let tape: Vec<u32> = data.chunks(2).map(|c| ((c[0] as u32) << 24) | ((*c.get(1).unwrap_or(&0) as u32) << 16)).collect();
-    match random_case(&mut Gen::new(&tape)) {
+    // kilobyte-long sources are left to the in-process generator: under the sanitizer they would
+    // dominate the campaign's time
+    match random_case_with(&mut Gen::new(&tape), false) {
         Verdict::Fail { msg, .. } => Err(msg),
         _ => Ok(()),
     }
@@ -718,6 +720,10 @@ pub fn fuzz_replay(data: &[u8]) -> Verdict {
 }
 
 fn random_case(g: &mut Gen) -> Verdict {
+    random_case_with(g, true)
+}
+
+fn random_case_with(g: &mut Gen, allow_long: bool) -> Verdict {
     let src = match g.below(3) {
         0 => SourceKind::Slice,
         1 => SourceKind::Chunked(g.range(1, 3) as usize),
@@ -725,7 +731,7 @@ fn random_case(g: &mut Gen) -> Verdict {
     };
     // most sources are short (every bit position matters); some are medium; a few are tens of
     // kilobytes long (a short generated unit repeated) and are walked with large skips
-    let size_class = g.weighted(&[30, 8, 1]);
+    let size_class = g.weighted(&[30, 8, if allow_long { 1 } else { 0 }]);
     let data = match size_class {
         0 => gen_source_bytes(g, 24),
         1 => gen_source_bytes(g, 90),
